@@ -8,7 +8,7 @@ from . import enc as E
 from . import hist as H
 from .props import c02 as V
 
-VGET, VSET, VSUB, VUNSUB, VRECV, VRAW = 50, 51, 52, 53, 54, 55
+VGET, VSET, VSUB, VUNSUB, VRECV, VRAW, VMETA = 50, 51, 52, 53, 54, 55, 56
 INT_TEXTS = ["0", "1", "5", "10", "-1", "-10", "127", "128", "-128", "-129", "255", "256", "32767", "32768", "65535",
              "65536", "2147483647", "2147483648", "-2147483648", "4294967295", "4294967296", "9223372036854775807",
              "9223372036854775808", "18446744073709551615", "18446744073709551616", "+5", "-0", "007",
@@ -34,7 +34,7 @@ RAW_TEXTS = ['{"action":"get","requestId":"q1"}', '{"action":"fly","requestId":"
              '{"action":"get","requestId":"q12","path":"Vehicle.Speed","authorization":5}',
              '{"action":"set","requestId":"q13","path":"Vehicle.Speed","value":{"a":1}}',
              '{"action":"get","requestId":"q\u0000","path":"x"}']
-W_VISS = {"vraw": 1.5, "vget": 5, "vset": 6, "vsub": 2, "vrecv": 3, "vunsub": 0.7, "update": 5, "v2pub": 2, "v2get": 2, "v1get": 1,
+W_VISS = {"vmeta": 1.5, "vraw": 1.5, "vget": 5, "vset": 6, "vsub": 2, "vrecv": 3, "vunsub": 0.7, "update": 5, "v2pub": 2, "v2get": 2, "v1get": 1,
           "v1set": 1.5, "get": 1, "cleanup": 0.3}
 REASON = {1: "bad_request", 2: "token_expired", 3: "token_invalid", 4: "token_missing", 5: "read_only", 6: "user_forbidden",
           7: "invalid_path", 8: "invalid_subscription_id", 9: "internal_server_error"}
@@ -142,6 +142,14 @@ class VGen(H.Gen):
             L.append([VRECV, r.randrange(self.vsubs), r.choice([1, 2, 50])])
         elif k == "vraw":
             L.append([VRAW] + E.s(r.choice(RAW_TEXTS)))
+        elif k == "vmeta":
+            # static metadata: everything, a branch, a signal, a name that is the beginning of other names, unknown
+            leaves = [s_[1] for s_ in self.sigs]
+            branches = sorted({".".join(x.split(".")[:n]) for x in leaves for n in range(1, x.count(".") + 1)})
+            c = r.random()
+            path = ("" if c < 0.15 else r.choice(branches) if c < 0.5 and branches else r.choice(leaves) if c < 0.8 and leaves
+                    else r.choice(["Vehicle.Spee", "Vehicle.Speed", "Vehicle.Cabin.Door.Row", "Veh", "Nope", "Vehicle.", "vehicle"]))
+            L.append([VMETA] + E.s(path))
         elif k == "vunsub" and self.vsubs:
             L.append([VUNSUB, r.randrange(self.vsubs + (1 if r.random() < 0.2 else 0))])
         elif k in ("update", "get", "cleanup") or k in H.API_KINDS:
@@ -199,9 +207,12 @@ def tok_name(t):
 
 def parse_viss(l):
     op = l[0]
-    d = {"op": op, "name": {50: "VGET", 51: "VSET", 52: "VSUB", 53: "VUNSUB", 54: "VRECV", 55: "VRAW"}[op]}
+    d = {"op": op, "name": {50: "VGET", 51: "VSET", 52: "VSUB", 53: "VUNSUB", 54: "VRECV", 55: "VRAW", 56: "VMETA"}[op]}
     if op == VRAW:
         d["text"], _ = _str(l, 1)
+        return d
+    if op == VMETA:
+        d["path"], _ = _str(l, 1)
         return d
     if op in (VGET, VSET, VSUB):
         d["tok"], i = _tok(l, 1)
@@ -233,9 +244,15 @@ def split(lines, out):
     for l in lines:
         if i >= len(out):
             return None
-        if 50 <= l[0] <= 55:
+        if 50 <= l[0] <= 56:
             d = parse_viss(l)
-            if l[0] == VRECV and out[i] not in ([-1], [-77], [-88]):
+            if l[0] == VMETA and len(out[i]) == 2 and out[i][0] == 0:
+                n = out[i][1]
+                if i + 1 + n > len(out) or any(x[:1] != [205] for x in out[i + 1:i + 1 + n]):
+                    return None
+                res.append((l, d, out[i:i + 1 + n]))
+                i += 1 + n
+            elif l[0] == VRECV and out[i] not in ([-1], [-77], [-88]):
                 j = i
                 while j < len(out) and out[j][0] in (120, 121, -5):
                     j += 1
@@ -370,6 +387,40 @@ def _judge_viss(d, o, P, paths, meta, subs, core_lines, core_out):
             fails.append("C20-codec: the reply to %s cannot be read as a value of the signal's data type" % d["name"])
             continue
         name = d["name"]
+        if name == "VMETA":
+            # static metadata (served without a token): what the tree says about a signal is what was registered;
+            # every signal at or below the requested path is in it (strict reading), nothing whose path does not
+            # even begin with the requested text is (liberal reading)
+            req = d["path"]
+            if o[0][:1] != [0]:
+                fails.append("C20-metadata: a static-metadata request for %r was answered %s" % (req, o[0]))
+                continue
+            byid = {i: m for i, m in meta.items()}
+            seen = set()
+            for row in o[1:]:
+                i = row[1]
+                if i not in byid:
+                    continue
+                seen.add(i)
+                m = byid[i]
+                if not m["path"].startswith(req):
+                    fails.append("C20-metadata: the metadata of %r lists %s" % (req, m["path"]))
+                if row[2] != H.KUKSA_ET[m["etype"]]:
+                    fails.append("C15-meta: VISS metadata reports entry type %d for %s (registered entry type %d)" % (
+                        row[2], m["path"], m["etype"]))
+                if row[3] != H.KUKSA_DT[m["dtype"]]:
+                    fails.append("C15-meta: VISS metadata reports data type %d for %s (%s)" % (
+                        row[3], m["path"], E.DATA_TYPES[m["dtype"]]))
+                got = None
+                if len(row) > 4 and row[4] == 1:
+                    got, _ = E.dec_val(row, 5)
+                exp = m.get("allowed")
+                if (got is None) != (exp is None) or (got is not None and not H.same_bits(got, exp)):
+                    fails.append("C15-meta: VISS metadata reports allowed=%s for %s, registered %s" % (got, m["path"], exp))
+            for i, m in byid.items():
+                if (req == "" or m["path"] == req or m["path"].startswith(req + ".")) and i not in seen:
+                    fails.append("C20-metadata: the metadata of %r lacks %s" % (req, m["path"]))
+            continue
         if name == "VRAW":
             import json as _json
             try:
@@ -487,6 +538,8 @@ def pretty(lines):
     for l in lines:
         if l[0] == VRAW:
             out.append("VISS raw frame %r" % parse_viss(l)["text"][:100])
+        elif l[0] == VMETA:
+            out.append("VISS get static metadata of %r" % parse_viss(l)["path"])
         elif 50 <= l[0] <= 54:
             d = parse_viss(l)
             t = d.get("tok")
